@@ -48,7 +48,7 @@ var fnWhitelist = map[string][]string{
 		"Info.Validate", "Export.Validate", "isContainedIn", "Exports.Validate", "Exports.HasExportContainingSubject", "Mapping.Validate",
 		"CreateValidationResults", "ResponsePermission.Validate", "Permissions.Validate",
 		"OperatorLimits.IsEmpty", "OperatorLimits.Validate", "ExternalAuthorization.Validate",
-		"UserScope.Validate", "SigningKeys.Validate", "Account.Validate", "AccountClaims.Validate", "GenericClaims.Validate", "AuthorizationRequestClaims.Validate", "AuthorizationResponseClaims.Validate", "TimeRange.Validate", "Limits.Validate", "User.Validate", "UserClaims.Validate", "ParseServerVersion", "Operator.validateAccountServerURL", "ValidateOperatorServiceURL", "Operator.validateOperatorServiceURLs", "Operator.Validate", "OperatorClaims.Validate", "OperatorClaims.ExpectedPrefixes", "AccountClaims.ExpectedPrefixes", "UserClaims.ExpectedPrefixes", "ActivationClaims.ExpectedPrefixes", "AuthorizationRequestClaims.ExpectedPrefixes", "AuthorizationResponseClaims.ExpectedPrefixes", "GenericClaims.ExpectedPrefixes", "Decode", "v1OperatorClaims.migrateV1", "v1UserClaims.migrateV1", "v1ActivationClaims.migrateV1", "SigningKeys.Add", "v1AccountClaims.migrateV1", "UserClaims.Encode", "ActivationClaims.Encode", "OperatorClaims.Encode", "AccountClaims.Encode", "GenericClaims.Encode", "AuthorizationRequestClaims.Encode", "AuthorizationResponseClaims.Encode",
+		"UserScope.Validate", "SigningKeys.Validate", "Account.Validate", "AccountClaims.Validate", "GenericClaims.Validate", "AuthorizationRequestClaims.Validate", "AuthorizationResponseClaims.Validate", "TimeRange.Validate", "Limits.Validate", "User.Validate", "UserClaims.Validate", "ParseServerVersion", "Operator.validateAccountServerURL", "ValidateOperatorServiceURL", "Operator.validateOperatorServiceURLs", "Operator.Validate", "OperatorClaims.Validate", "OperatorClaims.ExpectedPrefixes", "AccountClaims.ExpectedPrefixes", "UserClaims.ExpectedPrefixes", "ActivationClaims.ExpectedPrefixes", "AuthorizationRequestClaims.ExpectedPrefixes", "AuthorizationResponseClaims.ExpectedPrefixes", "GenericClaims.ExpectedPrefixes", "loadClaims", "Decode", "v1OperatorClaims.migrateV1", "v1UserClaims.migrateV1", "v1ActivationClaims.migrateV1", "SigningKeys.Add", "v1AccountClaims.migrateV1", "UserClaims.Encode", "ActivationClaims.Encode", "OperatorClaims.Encode", "AccountClaims.Encode", "GenericClaims.Encode", "AuthorizationRequestClaims.Encode", "AuthorizationResponseClaims.Encode",
 	},
 	"V1": {
 		"Subject.HasWildCards", "Subject.IsContainedIn", "cleanSubject",
@@ -237,7 +237,7 @@ var nilableElems = map[string]bool{"Export": true, "Import": true}
 
 // opaqueFns: package functions that translated code may call but that stay outside the translation (their behaviour
 // is a parameter of the translated caller: a field of the generated structure `Opq`)
-var opaqueFns = map[string]bool{"ClaimsData.encode": true, "parseHeaders": true, "decodeString": true, "loadClaims": true, "DecodeActivationClaims": true, "RenamingSubject.ToSubject": true}
+var opaqueFns = map[string]bool{"ClaimsData.encode": true, "parseHeaders": true, "decodeString": true, "loadOperator": true, "loadAccount": true, "loadUser": true, "loadActivation": true, "loadAuthorizationRequest": true, "loadAuthorizationResponse": true, "DecodeActivationClaims": true, "RenamingSubject.ToSubject": true}
 
 // foreignOpaque: functions of other packages that translated code may call; each becomes a field of `Opq`
 // (name, Lean type of the field, and how a two-value result is read)
@@ -1801,8 +1801,18 @@ func (c *fnCtx) stmt(b *block, s ast.Stmt) {
 					continue
 				}
 				if id, ok := r.(*ast.Ident); ok {
-					if o := c.g.p.TypesInfo.Uses[id]; o != nil && (c.nilVars[o] || c.fi.optPtr[o]) {
-						vals = append(vals, c.nameOf(o)) // the interface value itself (possibly nil)
+					if o := c.g.p.TypesInfo.Uses[id]; o != nil {
+						if _, isIv := c.g.ifaceOf(o.Type()); isIv || c.nilVars[o] || c.fi.optPtr[o] {
+							vals = append(vals, c.nameOf(o)) // the interface value itself (possibly nil)
+							continue
+						}
+					}
+				}
+				if in, ok := c.g.ifaceOf(c.fi.results[i]); ok {
+					if tn, isP := ptrToStruct(c.typeOf(r)); isP {
+						a := c.expr(r)
+						c.g.leanType(c.typeOf(r))
+						vals = append(vals, "(some (I_"+in+"."+tn.Obj().Name()+" "+a.bind()+"))")
 						continue
 					}
 				}
@@ -2092,6 +2102,13 @@ func (c *fnCtx) assign(b *block, x *ast.AssignStmt) {
 							}
 						}
 					}
+					// a *T result stored into a variable of a package interface type
+					if in, isI := c.g.ifaceOf(c.typeOf(l)); isI {
+						if tn, isP := ptrToStruct(fi.results[i]); isP {
+							c.g.leanType(fi.results[i])
+							pr = "((" + pr + ").map I_" + in + "." + tn.Obj().Name() + ")"
+						}
+					}
 					c.store(b, l, pr)
 				}
 				return
@@ -2200,6 +2217,13 @@ func (c *fnCtx) assign(b *block, x *ast.AssignStmt) {
 					if i < len(x.Lhs)-1 {
 						pr += ".1"
 					}
+					if id, ok := l.(*ast.Ident); ok && id.Name != "_" && x.Tok == token.DEFINE {
+						if o := c.g.p.TypesInfo.Defs[id]; o != nil {
+							if _, isI := c.g.ifaceOf(o.Type()); isI {
+								c.nilVars[o] = true
+							}
+						}
+					}
 					c.store(b, l, pr)
 				}
 				return
@@ -2211,6 +2235,30 @@ func (c *fnCtx) assign(b *block, x *ast.AssignStmt) {
 	}
 	if len(x.Lhs) > 1 {
 		unsup("parallel assignment")
+	}
+	// err := json.Unmarshal(data, &x): x is replaced by what the (opaque) decoder of its type makes of it
+	if call, ok := x.Rhs[0].(*ast.CallExpr); ok && selName(call.Fun) == "json.Unmarshal" && len(call.Args) == 2 {
+		if ue, ok := call.Args[1].(*ast.UnaryExpr); ok && ue.Op == token.AND {
+			if n, ok := c.typeOf(ue.X).(*types.Named); ok && n.Obj().Pkg() == c.g.p.Types {
+				q := "json.Unmarshal" + n.Obj().Name()
+				lt := c.g.leanType(n)
+				foreignOpaque[q] = "(List Int) → " + lt + " → (" + lt + " × Bool)"
+				if c.g.foreign == nil {
+					c.g.foreign = map[string]bool{}
+				}
+				if !c.g.foreign[q] {
+					c.g.foreign[q] = true
+					c.g.foreignOrd = append(c.g.foreignOrd, q)
+				}
+				d, v := c.expr(call.Args[0]), c.expr(ue.X)
+				c.tmpN++
+				tmp := fmt.Sprintf("__u%d", c.tmpN)
+				b.add("let %s := opq.%s %s %s", tmp, strings.ReplaceAll(q, ".", "_"), d.bind(), v.bind())
+				c.store(b, ue.X, tmp+".1")
+				c.store(b, x.Lhs[0], tmp+".2")
+				return
+			}
+		}
 	}
 	// m[k] = nil / v = nil for an interface-typed destination
 	if c.isNilExpr(x.Rhs[0]) {
